@@ -65,6 +65,15 @@ def sim_sources_hash():
     return _SIM_HASH
 
 
+def repo_headers_hash():
+    h = hashlib.sha256()
+    for pat in ("include/*.h", "include/eav/*.h"):
+        for f in sorted(glob.glob(os.path.join(REPO, pat))):
+            with open(f, "rb") as fh:
+                h.update(fh.read())
+    return h.hexdigest()
+
+
 def compile_many(jobs, cacheable=()):
     """jobs: list of (cmd list). Runs them in parallel.  Jobs whose index is in `cacheable`
     compile harness-only sources (nothing from /repo) and are cached under build/cache."""
@@ -75,7 +84,10 @@ def compile_many(jobs, cacheable=()):
         out = cmd[cmd.index("-o") + 1]
         key = None
         if i in cacheable:
-            key = hashlib.sha256((" ".join(cmd[:cmd.index("-o")]) + sim_sources_hash()).encode()).hexdigest()[:24]
+            dep = sim_sources_hash()
+            if any(a.startswith("-I" + REPO) for a in cmd):
+                dep += repo_headers_hash()      # the object sees the repository's headers (eav_t layout): part of the key
+            key = hashlib.sha256((" ".join(cmd[:cmd.index("-o")]) + dep).encode()).hexdigest()[:24]
             c = os.path.join(cache_dir, key + ".o")
             if os.path.exists(c):
                 shutil.copyfile(c, out)
